@@ -3,6 +3,7 @@ package crashkit10
 import (
 	"bytes"
 	"context"
+	"encoding/json"
 	"errors"
 	"fmt"
 	"io"
@@ -79,6 +80,10 @@ func ErrName(err error) string {
 		return "missingref"
 	case errors.Is(err, errdef.ErrInvalidReference):
 		return "invalidref"
+	}
+	var syn *json.SyntaxError
+	if errors.As(err, &syn) {
+		return "invalid" // a manifest that does not decode
 	}
 	// content.ErrMismatchedDigest etc. are plain errors of package content
 	msg := err.Error()
